@@ -17,9 +17,9 @@ Lemma bvalid_mono buffer n1 n2 n1' n2' K b :
   (forall id ng, n2 id = Some ng -> n2' id = Some ng) ->
   bvalid buffer n1 n2 K b -> bvalid buffer n1' n2' K b.
 Proof.
-  intros H1 H2 (A & B & C & D). repeat split; auto.
-  - intros id e E. destruct (C id e E) as (ng & Hn & Hv). eauto.
-  - intros id e E. destruct (D id e E) as (ng & Hn & Hv). eauto.
+  intros H1 H2 (A & C & D). split; [exact A|split].
+  - intros id E. destruct (C id E) as (ng & Hn & Hv). eauto.
+  - intros id E. destruct (D id E) as (ng & Hn & Hv). eauto.
 Qed.
 Lemma chain_ok_mono buffer n1 n2 n1' n2' K :
   (forall id ng, n1 id = Some ng -> n1' id = Some ng) ->
@@ -42,79 +42,80 @@ Lemma chain_ok_suffix buffer n1 n2 T : forall K, chain_ok buffer n1 n2 (T ++ K) 
 Proof. induction T as [|b T IH]; cbn; intros K H; [exact H|]. apply IH. tauto. Qed.
 
 (** * consistency of the specification *)
+Lemma evl_dec {E} (l : list E) : l = [] \/ l <> [].
+Proof. destruct l; [left; reflexivity|right; discriminate]. Qed.
+
 Lemma spec1_cinv buffer n1 n2 K : forall id ng,
   chain_ok buffer n1 n2 K -> n1 id = Some ng -> cinv1 (spec1 buffer ng id K).
 Proof.
   induction K as [|b K IH]; intros id ng Hck Hn; [apply cinv1_fresh|].
-  destruct Hck as [(_ & _ & V1 & _) Hk]. rewrite spec1_cons. unfold spec_block1.
-  apply cinv1_rej. destruct (ev1_of id b) as [e|] eqn:E; [|eauto].
-  destruct (V1 id e E) as (ng' & Hn' & Hv). assert (ng' = ng) as -> by congruence.
-  apply cinv1_ev; eauto.
+  destruct Hck as [(_ & V1 & _) Hk]. rewrite spec1_cons. unfold spec_block1.
+  apply cinv1_rej. destruct (evl_dec (evl1_of id b)) as [E|E]; [rewrite E; cbn; eauto|].
+  destruct (V1 id E) as (ng' & Hn' & Hv). assert (ng' = ng) as -> by congruence.
+  apply cinv1_evs; eauto.
 Qed.
 Lemma spec2_cinv buffer n1 n2 K : forall id ng,
   chain_ok buffer n1 n2 K -> n2 id = Some ng -> cinv2 (spec2 buffer ng id K).
 Proof.
   induction K as [|b K IH]; intros id ng Hck Hn; [apply cinv2_fresh|].
-  destruct Hck as [(_ & _ & _ & V2) Hk]. rewrite spec2_cons. unfold spec_block2.
-  apply cinv2_rej. destruct (ev2_of id b) as [e|] eqn:E; [|eauto].
-  destruct (V2 id e E) as (ng' & Hn' & Hv). assert (ng' = ng) as -> by congruence.
-  apply cinv2_ev; eauto.
+  destruct Hck as [(_ & _ & V2) Hk]. rewrite spec2_cons. unfold spec_block2.
+  apply cinv2_rej. destruct (evl_dec (evl2_of id b)) as [E|E]; [rewrite E; cbn; eauto|].
+  destruct (V2 id E) as (ng' & Hn' & Hv). assert (ng' = ng) as -> by congruence.
+  apply cinv2_evs; eauto.
 Qed.
 
 (** * a block respects the equivalence *)
 Lemma heqv1_block buffer ng id b y x :
-  cinv1 x -> heqv1 y x -> (forall e, ev1_of id b = Some e -> valid1 e x) ->
+  cinv1 x -> heqv1 y x -> valid_evs1 (bheight b) (evl1_of id b) x ->
   heqv1 (spec_block1 buffer ng id b y) (spec_block1 buffer ng id b x).
 Proof.
-  intros Hc Hq Hv. unfold spec_block1. destruct (ev1_of id b) as [e|].
-  - apply heqv1_rej; [apply cinv1_ev; auto|apply heqv1_ev; auto].
-  - apply heqv1_rej; auto.
+  intros Hc Hq Hv. unfold spec_block1. apply heqv1_rej; [apply cinv1_evs; auto|apply heqv1_evs; auto].
 Qed.
 Lemma heqv2_block buffer ng id b y x :
-  cinv2 x -> heqv2 y x -> (forall e, ev2_of id b = Some e -> valid2 e x) ->
+  cinv2 x -> heqv2 y x -> valid_evs2 (bidx b) (evl2_of id b) x ->
   heqv2 (spec_block2 buffer ng id b y) (spec_block2 buffer ng id b x).
 Proof.
-  intros Hc Hq Hv. unfold spec_block2. destruct (ev2_of id b) as [e|].
-  - apply heqv2_rej; [apply cinv2_ev; auto|apply heqv2_ev; auto].
-  - apply heqv2_rej; auto.
+  intros Hc Hq Hv. unfold spec_block2. apply heqv2_rej; [apply cinv2_evs; auto|apply heqv2_evs; auto].
 Qed.
 
 (* a block that does not mention the contract only rejects *)
-Lemma spec_block1_none buffer ng id b x : ev1_of id b = None -> cinv1 x ->
+Lemma spec_block1_none buffer ng id b x : evl1_of id b = [] -> cinv1 x ->
   heqv1 (spec_block1 buffer ng id b x) x.
 Proof. intros E Hc. unfold spec_block1. rewrite E. apply heqv1_rej_absorb; exact Hc. Qed.
-Lemma spec_block2_none buffer ng id b x : ev2_of id b = None -> cinv2 x ->
+Lemma spec_block2_none buffer ng id b x : evl2_of id b = [] -> cinv2 x ->
   heqv2 (spec_block2 buffer ng id b x) x.
 Proof. intros E Hc. unfold spec_block2. rewrite E. apply heqv2_rej_absorb; exact Hc. Qed.
 
 (* a block that mentions the contract leaves it confirmed: the rejection step does nothing *)
-Lemma spec_block1_some buffer ng id b e x : ev1_of id b = Some e -> cinv1 x -> valid1 e x ->
-  spec_block1 buffer ng id b x = spec_ev1 (bheight b) e x.
-Proof. intros E Hc Hv. unfold spec_block1. rewrite E. apply rej1_formed. apply formed_after_ev1; auto. Qed.
-Lemma spec_block2_some buffer ng id b e x : ev2_of id b = Some e -> cinv2 x -> valid2 e x ->
-  spec_block2 buffer ng id b x = spec_ev2 (bidx b) e x.
-Proof. intros E Hc Hv. unfold spec_block2. rewrite E. apply rej2_formed. apply formed_after_ev2; auto. Qed.
+Lemma spec_block1_some buffer ng id b x : evl1_of id b <> [] -> cinv1 x ->
+  valid_evs1 (bheight b) (evl1_of id b) x ->
+  spec_block1 buffer ng id b x = spec_evs1 (bheight b) (evl1_of id b) x.
+Proof. intros E Hc Hv. unfold spec_block1. apply rej1_formed. apply formed_after_evs1; auto. Qed.
+Lemma spec_block2_some buffer ng id b x : evl2_of id b <> [] -> cinv2 x ->
+  valid_evs2 (bidx b) (evl2_of id b) x ->
+  spec_block2 buffer ng id b x = spec_evs2 (bidx b) (evl2_of id b) x.
+Proof. intros E Hc Hv. unfold spec_block2. apply rej2_formed. apply formed_after_evs2; auto. Qed.
 
 (** * contracts no block mentions *)
 Definition blank1 (x : ch1) : Prop := h_formed x = false /\ h_conf x = 0 /\ h_res x = None /\ unconf1 (h_st x).
 Definition blank2 (x : ch2) : Prop := g_conf x = None /\ g_res x = None /\ g_elem x = None /\ unconf2 (g_st x).
 
 Lemma spec1_unmentioned buffer ng id K :
-  (forall b, In b K -> ev1_of id b = None) -> blank1 (spec1 buffer ng id K).
+  (forall b, In b K -> evl1_of id b = []) -> blank1 (spec1 buffer ng id K).
 Proof.
   induction K as [|b K IH]; intros H.
   - cbn. unfold blank1, unconf1; cbn; auto.
-  - rewrite spec1_cons. unfold spec_block1. rewrite (H b (or_introl eq_refl)).
+  - rewrite spec1_cons. unfold spec_block1. rewrite (H b (or_introl eq_refl)). cbn [spec_evs1 fold_left].
     assert (Hb : blank1 (spec1 buffer ng id K)) by (apply IH; intros; apply H; right; auto).
     revert Hb. generalize (spec1 buffer ng id K). intros x. unfold blank1, spec_rej1, unconf1.
     destruct (rej_arg buffer (bheight b)) as [hm|]; [|auto]. h1 x; crush; destruct (ng <? hm); crush.
 Qed.
 Lemma spec2_unmentioned buffer ng id K :
-  (forall b, In b K -> ev2_of id b = None) -> blank2 (spec2 buffer ng id K).
+  (forall b, In b K -> evl2_of id b = []) -> blank2 (spec2 buffer ng id K).
 Proof.
   induction K as [|b K IH]; intros H.
   - cbn. unfold blank2, unconf2; cbn; auto.
-  - rewrite spec2_cons. unfold spec_block2. rewrite (H b (or_introl eq_refl)).
+  - rewrite spec2_cons. unfold spec_block2. rewrite (H b (or_introl eq_refl)). cbn [spec_evs2 fold_left].
     assert (Hb : blank2 (spec2 buffer ng id K)) by (apply IH; intros; apply H; right; auto).
     revert Hb. generalize (spec2 buffer ng id K). intros x. unfold blank2, spec_rej2, unconf2.
     destruct (rej_arg buffer (bheight b)) as [hm|]; [|auto]. h2 x; crush; destruct (ng <? hm); crush.
@@ -125,51 +126,52 @@ Lemma blank2_heqv x : blank2 x -> heqv2 fresh_h2 x.
 Proof. unfold blank2, heqv2, unconf2. h2 x; cbn; intuition (try congruence). Qed.
 
 (* every mentioned contract is known *)
-Lemma chain_ok_known1 buffer n1 n2 K id b e :
-  chain_ok buffer n1 n2 K -> In b K -> ev1_of id b = Some e -> n1 id <> None.
+Lemma chain_ok_known1 buffer n1 n2 K id b :
+  chain_ok buffer n1 n2 K -> In b K -> evl1_of id b <> [] -> n1 id <> None.
 Proof.
-  induction K as [|b0 K IH]; cbn; [tauto|]. intros [(_ & _ & V1 & _) Hk] [->|Hin] E; [|eauto].
-  destruct (V1 id e E) as (ng & Hn & _). congruence.
+  induction K as [|b0 K IH]; cbn; [tauto|]. intros [(_ & V1 & _) Hk] [->|Hin] E; [|eauto].
+  destruct (V1 id E) as (ng & Hn & _). congruence.
 Qed.
-Lemma chain_ok_known2 buffer n1 n2 K id b e :
-  chain_ok buffer n1 n2 K -> In b K -> ev2_of id b = Some e -> n2 id <> None.
+Lemma chain_ok_known2 buffer n1 n2 K id b :
+  chain_ok buffer n1 n2 K -> In b K -> evl2_of id b <> [] -> n2 id <> None.
 Proof.
-  induction K as [|b0 K IH]; cbn; [tauto|]. intros [(_ & _ & _ & V2) Hk] [->|Hin] E; [|eauto].
-  destruct (V2 id e E) as (ng & Hn & _). congruence.
+  induction K as [|b0 K IH]; cbn; [tauto|]. intros [(_ & _ & V2) Hk] [->|Hin] E; [|eauto].
+  destruct (V2 id E) as (ng & Hn & _). congruence.
 Qed.
 
 (** * on a valid chain: unconfirmed = never mentioned; a resolution is final *)
+Lemma rej1_keeps_formed neg rj x : h_formed (spec_rej1 neg rj x) = h_formed x.
+Proof. unfold spec_rej1. destruct rj; [|reflexivity]. destruct (_ && _); reflexivity. Qed.
+Lemma rej2_keeps_conf neg rj x : g_conf (spec_rej2 neg rj x) = g_conf x.
+Proof. unfold spec_rej2. destruct rj; [|reflexivity]. destruct (_ && _); reflexivity. Qed.
+
 Lemma spec1_unformed_unmentioned buffer n1 n2 K : forall id ng,
   chain_ok buffer n1 n2 K -> n1 id = Some ng -> h_formed (spec1 buffer ng id K) = false ->
-  forall b, In b K -> ev1_of id b = None.
+  forall b, In b K -> evl1_of id b = [].
 Proof.
   induction K as [|b0 K IH]; intros id ng Hck Hn Hf b Hin; [destruct Hin|].
-  pose proof Hck as [(_ & _ & V1 & _) Hk]. rewrite spec1_cons in Hf.
+  pose proof Hck as [(_ & V1 & _) Hk]. rewrite spec1_cons in Hf.
   pose proof (spec1_cinv _ _ _ _ _ _ Hk Hn) as Hc.
-  destruct (ev1_of id b0) as [e|] eqn:E.
-  - exfalso. destruct (V1 id e E) as (ng' & Hn' & Hv). assert (ng' = ng) as -> by congruence.
-    rewrite (spec_block1_some _ _ _ _ _ _ E Hc Hv) in Hf.
-    rewrite (formed_after_ev1 _ _ _ Hc Hv) in Hf. discriminate.
+  destruct (evl_dec (evl1_of id b0)) as [E|E].
   - destruct Hin as [<-|Hin]; [exact E|]. eapply IH; eauto.
-    unfold spec_block1 in Hf. rewrite E in Hf. revert Hf.
-    generalize (spec1 buffer ng id K). intros x. unfold spec_rej1.
-    destruct (rej_arg buffer (bheight b0)); [|auto]. destruct (_ && _); auto.
+    unfold spec_block1 in Hf. rewrite E, rej1_keeps_formed in Hf. exact Hf.
+  - exfalso. destruct (V1 id E) as (ng' & Hn' & Hv). assert (ng' = ng) as -> by congruence.
+    rewrite (spec_block1_some _ _ _ _ _ E Hc Hv) in Hf.
+    rewrite (formed_after_evs1 _ _ _ Hc Hv E) in Hf. discriminate.
 Qed.
 Lemma spec2_unformed_unmentioned buffer n1 n2 K : forall id ng,
   chain_ok buffer n1 n2 K -> n2 id = Some ng -> g_conf (spec2 buffer ng id K) = None ->
-  forall b, In b K -> ev2_of id b = None.
+  forall b, In b K -> evl2_of id b = [].
 Proof.
   induction K as [|b0 K IH]; intros id ng Hck Hn Hf b Hin; [destruct Hin|].
-  pose proof Hck as [(_ & _ & _ & V2) Hk]. rewrite spec2_cons in Hf.
+  pose proof Hck as [(_ & _ & V2) Hk]. rewrite spec2_cons in Hf.
   pose proof (spec2_cinv _ _ _ _ _ _ Hk Hn) as Hc.
-  destruct (ev2_of id b0) as [e|] eqn:E.
-  - exfalso. destruct (V2 id e E) as (ng' & Hn' & Hv). assert (ng' = ng) as -> by congruence.
-    rewrite (spec_block2_some _ _ _ _ _ _ E Hc Hv) in Hf.
-    apply (formed_after_ev2 (bidx b0) _ _ Hc Hv). exact Hf.
+  destruct (evl_dec (evl2_of id b0)) as [E|E].
   - destruct Hin as [<-|Hin]; [exact E|]. eapply IH; eauto.
-    unfold spec_block2 in Hf. rewrite E in Hf. revert Hf.
-    generalize (spec2 buffer ng id K). intros x. unfold spec_rej2.
-    destruct (rej_arg buffer (bheight b0)); [|auto]. destruct (_ && _); auto.
+    unfold spec_block2 in Hf. rewrite E, rej2_keeps_conf in Hf. exact Hf.
+  - exfalso. destruct (V2 id E) as (ng' & Hn' & Hv). assert (ng' = ng) as -> by congruence.
+    rewrite (spec_block2_some _ _ _ _ _ E Hc Hv) in Hf.
+    apply (formed_after_evs2 _ _ _ Hc Hv E). exact Hf.
 Qed.
 
 Definition final1 (e : pev1) (s : st1) : Prop :=
@@ -177,48 +179,78 @@ Definition final1 (e : pev1) (s : st1) : Prop :=
 Definition final2 (e : pev2) (s : st2) : Prop :=
   match e with PSucc2 => s = S2 | PRen2 => s = N2 | PFail2 => s = F2 | _ => True end.
 
+(* a resolution stays: nothing is legal after it *)
+Lemma final1_keep_evs h e l : forall x, cinv1 x -> valid_evs1 h l x -> final1 e (h_st x) ->
+  final1 e (h_st (spec_evs1 h l x)).
+Proof.
+  induction l as [|e0 t IH]; intros x Hc Hv Hf; [exact Hf|]. destruct Hv as [Hv Ht].
+  rewrite spec_evs1_cons. apply IH; [apply cinv1_ev; assumption|exact Ht|].
+  revert Hc Hv Hf. unfold cinv1. h1 x; destruct e, e0; cbn; intuition congruence.
+Qed.
+Lemma final2_keep_evs i e l : forall x, cinv2 x -> valid_evs2 i l x -> final2 e (g_st x) ->
+  final2 e (g_st (spec_evs2 i l x)).
+Proof.
+  induction l as [|e0 t IH]; intros x Hc Hv Hf; [exact Hf|]. destruct Hv as [Hv Ht].
+  rewrite spec_evs2_cons. apply IH; [apply cinv2_ev; assumption|exact Ht|].
+  revert Hc Hv Hf. unfold cinv2. h2 x; destruct e, e0; cbn; intuition congruence.
+Qed.
+Lemma final1_in_evs h e l : forall x, cinv1 x -> valid_evs1 h l x -> In e l ->
+  final1 e (h_st (spec_evs1 h l x)).
+Proof.
+  induction l as [|e0 t IH]; intros x Hc Hv Hin; [destruct Hin|]. destruct Hv as [Hv Ht].
+  rewrite spec_evs1_cons. destruct Hin as [->|Hin].
+  - apply final1_keep_evs; [apply cinv1_ev; assumption|exact Ht|].
+    revert Hc Hv. unfold cinv1. h1 x; destruct e; cbn; intuition congruence.
+  - apply IH; [apply cinv1_ev; assumption|exact Ht|exact Hin].
+Qed.
+Lemma final2_in_evs i e l : forall x, cinv2 x -> valid_evs2 i l x -> In e l ->
+  final2 e (g_st (spec_evs2 i l x)).
+Proof.
+  induction l as [|e0 t IH]; intros x Hc Hv Hin; [destruct Hin|]. destruct Hv as [Hv Ht].
+  rewrite spec_evs2_cons. destruct Hin as [->|Hin].
+  - apply final2_keep_evs; [apply cinv2_ev; assumption|exact Ht|].
+    revert Hc Hv. unfold cinv2. h2 x; destruct e; cbn; intuition congruence.
+  - apply IH; [apply cinv2_ev; assumption|exact Ht|exact Hin].
+Qed.
+
+Lemma final1_rej e neg rj x : cinv1 x -> final1 e (h_st x) -> final1 e (h_st (spec_rej1 neg rj x)).
+Proof.
+  unfold spec_rej1, cinv1. destruct rj as [hm|]; [|auto].
+  h1 x; destruct e; crush; destruct (neg <? hm); crush.
+Qed.
+Lemma final2_rej e neg rj x : cinv2 x -> final2 e (g_st x) -> final2 e (g_st (spec_rej2 neg rj x)).
+Proof.
+  unfold spec_rej2, cinv2. destruct rj as [hm|]; [|auto].
+  h2 x; destruct e; crush; destruct (neg <? hm); crush.
+Qed.
+
 Lemma spec1_final buffer n1 n2 K : forall id ng b e,
-  chain_ok buffer n1 n2 K -> n1 id = Some ng -> In b K -> ev1_of id b = Some e ->
+  chain_ok buffer n1 n2 K -> n1 id = Some ng -> In b K -> In e (evl1_of id b) ->
   final1 e (h_st (spec1 buffer ng id K)).
 Proof.
   induction K as [|b0 K IH]; intros id ng b e Hck Hn Hin E; [destruct Hin|].
-  pose proof Hck as [(_ & _ & V1 & _) Hk]. rewrite spec1_cons.
+  pose proof Hck as [(_ & V1 & _) Hk]. rewrite spec1_cons.
   pose proof (spec1_cinv _ _ _ _ _ _ Hk Hn) as Hc.
+  assert (Hv : valid_evs1 (bheight b0) (evl1_of id b0) (spec1 buffer ng id K)).
+  { destruct (evl_dec (evl1_of id b0)) as [E0|E0]; [rewrite E0; exact I|].
+    destruct (V1 id E0) as (ng' & Hn' & Hv). assert (ng' = ng) as -> by congruence. exact Hv. }
+  unfold spec_block1. apply final1_rej; [apply cinv1_evs; assumption|].
   destruct Hin as [<-|Hin].
-  - destruct (V1 id e E) as (ng' & Hn' & Hv). assert (ng' = ng) as -> by congruence.
-    rewrite (spec_block1_some _ _ _ _ _ _ E Hc Hv).
-    revert Hc Hv. generalize (spec1 buffer ng id K). intros x. unfold cinv1.
-    h1 x; destruct e; cbn; intuition congruence.
-  - specialize (IH id ng b e Hk Hn Hin E).
-    destruct (ev1_of id b0) as [e0|] eqn:E0.
-    + destruct (V1 id e0 E0) as (ng' & Hn' & Hv). assert (ng' = ng) as -> by congruence.
-      rewrite (spec_block1_some _ _ _ _ _ _ E0 Hc Hv).
-      revert Hc Hv IH. generalize (spec1 buffer ng id K). intros x. unfold cinv1.
-      h1 x; destruct e, e0; cbn; intuition congruence.
-    + unfold spec_block1. rewrite E0. revert Hc IH. generalize (spec1 buffer ng id K). intros x.
-      unfold spec_rej1, cinv1. destruct (rej_arg buffer (bheight b0)) as [hm|]; [|auto].
-      h1 x; destruct e; crush; destruct (ng <? hm); crush.
+  - apply final1_in_evs; assumption.
+  - apply final1_keep_evs; [assumption|assumption|]. eapply IH; eauto.
 Qed.
-
 Lemma spec2_final buffer n1 n2 K : forall id ng b e,
-  chain_ok buffer n1 n2 K -> n2 id = Some ng -> In b K -> ev2_of id b = Some e ->
+  chain_ok buffer n1 n2 K -> n2 id = Some ng -> In b K -> In e (evl2_of id b) ->
   final2 e (g_st (spec2 buffer ng id K)).
 Proof.
   induction K as [|b0 K IH]; intros id ng b e Hck Hn Hin E; [destruct Hin|].
-  pose proof Hck as [(_ & _ & _ & V2) Hk]. rewrite spec2_cons.
+  pose proof Hck as [(_ & _ & V2) Hk]. rewrite spec2_cons.
   pose proof (spec2_cinv _ _ _ _ _ _ Hk Hn) as Hc.
+  assert (Hv : valid_evs2 (bidx b0) (evl2_of id b0) (spec2 buffer ng id K)).
+  { destruct (evl_dec (evl2_of id b0)) as [E0|E0]; [rewrite E0; exact I|].
+    destruct (V2 id E0) as (ng' & Hn' & Hv). assert (ng' = ng) as -> by congruence. exact Hv. }
+  unfold spec_block2. apply final2_rej; [apply cinv2_evs; assumption|].
   destruct Hin as [<-|Hin].
-  - destruct (V2 id e E) as (ng' & Hn' & Hv). assert (ng' = ng) as -> by congruence.
-    rewrite (spec_block2_some _ _ _ _ _ _ E Hc Hv).
-    revert Hc Hv. generalize (spec2 buffer ng id K). intros x. unfold cinv2.
-    h2 x; destruct e; cbn; intuition congruence.
-  - specialize (IH id ng b e Hk Hn Hin E).
-    destruct (ev2_of id b0) as [e0|] eqn:E0.
-    + destruct (V2 id e0 E0) as (ng' & Hn' & Hv). assert (ng' = ng) as -> by congruence.
-      rewrite (spec_block2_some _ _ _ _ _ _ E0 Hc Hv).
-      revert Hc Hv IH. generalize (spec2 buffer ng id K). intros x. unfold cinv2.
-      h2 x; destruct e, e0; cbn; intuition congruence.
-    + unfold spec_block2. rewrite E0. revert Hc IH. generalize (spec2 buffer ng id K). intros x.
-      unfold spec_rej2, cinv2. destruct (rej_arg buffer (bheight b0)) as [hm|]; [|auto].
-      h2 x; destruct e; crush; destruct (ng <? hm); crush.
+  - apply final2_in_evs; assumption.
+  - apply final2_keep_evs; [assumption|assumption|]. eapply IH; eauto.
 Qed.
